@@ -185,9 +185,39 @@ fn raw() -> BoxedStrategy<(Vec<u8>, String)> {
         .boxed()
 }
 
+/// whole well-formed packets of 500..3000 bytes (every type that can be that long), alone or
+/// followed by short packets
+fn large() -> BoxedStrategy<(Vec<u8>, String)> {
+    let big = (0usize..6, 480usize..3000).prop_map(|(k, n)| {
+        let text = "x".repeat(n);
+        let p = match k {
+            0 => rc::Packet::Publish(rc::Publish { qos: 0, topic: "big".into(), payload: vec![0x5a; n], ..Default::default() }),
+            1 => rc::Packet::Publish(rc::Publish { qos: 1, pid: Some(9), topic: text.clone(), payload: vec![1], subscription_ids: vec![1], ..Default::default() }),
+            2 => rc::Packet::Connack(rc::Connack { reason_string: Some(text.clone()), ..Default::default() }),
+            3 => rc::Packet::Puback(rc::Ack { pid: 1, reason: 0x10, reason_string: Some(text.clone()), ..Default::default() }),
+            4 => rc::Packet::Suback(rc::AckList { pid: 1, reasons: vec![0; n], ..Default::default() }),
+            _ => rc::Packet::Pubcomp(rc::Ack { pid: 2, reason: 0, user_props: vec![("k".into(), text.clone())], ..Default::default() }),
+        };
+        (rc::encode(&p, &rc::Form::canonical()), format!("large-{}", p.name()))
+    });
+    prop_oneof![
+        2 => big.clone(),
+        1 => (big.clone(), base_packet()).prop_map(|((mut a, la), (b, lb))| {
+            a.extend(b);
+            (a, format!("{la}+{lb}"))
+        }),
+        1 => (big.clone(), big).prop_map(|((mut a, la), (b, lb))| {
+            a.extend(b);
+            (a, format!("{la}+{lb}"))
+        }),
+    ]
+    .boxed()
+}
+
 pub fn input_bytes() -> BoxedStrategy<(Vec<u8>, String)> {
     prop_oneof![
         3 => raw(),
+        2 => large(),
         9 => mutant(),
         // two packets back to back
         2 => (mutant(), mutant()).prop_map(|((mut a, la), (b, lb))| {
@@ -200,6 +230,46 @@ pub fn input_bytes() -> BoxedStrategy<(Vec<u8>, String)> {
 
 fn tolerated_panic(msg: &str) -> bool {
     msg.contains("Subscription identifier support is required")
+}
+
+fn serving_probe(
+    w: &mut World,
+    plan: &WritePlan,
+    case: &Case,
+    ph: &str,
+    check_panics: &dyn Fn(&World, &mut Outcome) -> Option<Failure>,
+    out: &mut Outcome,
+) -> Option<Failure> {
+    w.sync_wire();
+    let before = w.pkts.len();
+    let probe = rc::Packet::Publish(rc::Publish { qos: 1, topic: "c04/probe".into(), pid: Some(0x7777), payload: b"probe".to_vec(), ..Default::default() });
+    feed_packet(w, &probe, &rc::Form::canonical());
+    settle(w, plan, true);
+    if let Some(f) = check_panics(w, out) {
+        return Some(f);
+    }
+    if w.budget_exhausted {
+        return Some(Failure { sig: format!("C04/livelock/{ph}"), msg: format!("poll budget exhausted after the probe; input {}", hex(&case.bytes)) });
+    }
+    out.class("serving-probe");
+    if w.run_result.is_some() {
+        return None; // C13 judges why run() returned
+    }
+    w.sync_wire();
+    let acked = w.pkts[before..].iter().any(|p| matches!(&p.decoded, Ok(rc::Packet::Puback(a)) if a.pid == 0x7777));
+    if !acked {
+        return Some(Failure {
+            sig: format!("C04/stall/not-serving-after-input/{ph}"),
+            msg: format!(
+                "run() is pending and every input frame was taken, but a QoS 1 PUBLISH delivered afterwards is not acknowledged ({} bytes of it unread): the client is wedged; input {} ({}), read chunk {}",
+                w.reader.unread(),
+                hex(&case.bytes),
+                case.label,
+                case.chunk
+            ),
+        });
+    }
+    None
 }
 
 /// Returns Err(failure) or Ok(outcome classes)
@@ -332,6 +402,13 @@ pub fn run_bytes(case: &Case, out: &mut Outcome) -> Option<Failure> {
             });
         }
         out.class("outcome-keeps-serving");
+        // "keeps serving" is meant literally: when the input was a sequence of whole frames (so the
+        // client is at a packet boundary) a QoS 1 PUBLISH arriving now must be acknowledged
+        if case.phase == Phase::Run && !write_fault && prologue_ok && rc::frames(data).1 == 0 {
+            if let Some(f) = serving_probe(&mut w, &plan, case, &ph, &check_panics, out) {
+                return Some(f);
+            }
+        }
         // closing: the transport ends now; the call must return
         w.tick();
         w.reader.set_eof();
@@ -359,6 +436,22 @@ pub fn run_bytes(case: &Case, out: &mut Outcome) -> Option<Failure> {
             },
         };
         out.class(format!("outcome-returned-{kind}"));
+        // a connection that was accepted must be servable: run() on it answers a QoS 1 PUBLISH
+        // (whatever else the input contained is run()'s to handle or to fail on)
+        let accepted = matches!(w.conn_results.last(), Some(ConnRes::Connack(c)) if c.reason < 0x80);
+        if case.phase != Phase::Run && accepted && case.fault == Fault::None && rc::frames(data).1 == 0 && !tolerated {
+            w.tick();
+            w.start_run();
+            settle(&mut w, &plan, true);
+            if let Some(f) = check_panics(&w, out) {
+                return Some(f);
+            }
+            if w.run_result.is_none() {
+                if let Some(f) = serving_probe(&mut w, &plan, case, &ph, &check_panics, out) {
+                    return Some(f);
+                }
+            }
+        }
     }
     // everything else the user holds must not be wedged in a panic either: drain
     for s in 0..w.streams.len() {
@@ -378,7 +471,7 @@ impl Property for C04 {
         (
             prop::sample::select(vec![Phase::Connect, Phase::Authorize, Phase::Run, Phase::Run]),
             input_bytes(),
-            prop_oneof![3 => Just(0u16), 2 => prop::sample::select(vec![1u16, 2, 3, 7])],
+            prop_oneof![3 => Just(0u16), 2 => prop::sample::select(vec![1u16, 2, 3, 7]), 1 => prop::sample::select(vec![511u16, 512, 513, 1024])],
             prop_oneof![
                 5 => Just(Fault::None),
                 2 => (0u16..80).prop_map(Fault::Eof),
